@@ -80,6 +80,21 @@ func genThemedLibJob(r *Rand, k int, allowLoad bool, theme string) LibJob {
 			j.Expr = Pick(r, []string{".rows | @csv", ".rows | @tsv", ".rows | to_csv"})
 			return j
 		}
+		if theme == "evalchain" {
+			j.API = Pick(r, []string{"stream", "stream", "all", "string"})
+			j.InFmt, j.OutFmt = "yaml", Pick(r, []string{"yaml", "json0"})
+			n := r.Range(9, 14)
+			var b strings.Builder
+			b.WriteString("id: " + DocID(r, k, 0) + "\na: " + strconv.Itoa(r.Range(1, 9)) + "\n")
+			for i := 1; i < n; i++ {
+				b.WriteString(fmt.Sprintf("e%d: eval(.e%d)\n", i, i+1))
+			}
+			b.WriteString(fmt.Sprintf("e%d: .a\n", n))
+			j.Input = Bytes(b.String())
+			j.DecSlot, j.EncSlot = r.Intn(2), r.Intn(2)
+			j.Expr = Pick(r, ExprThemes[theme])
+			return j
+		}
 		if theme == "nullinput" {
 			j.API = Pick(r, []string{"new", "new", "allnew"})
 			j.InFmt, j.OutFmt = "yaml", Pick(r, []string{"yaml", "json0"})
